@@ -285,6 +285,11 @@ func (viso *VirtualISO) scanDirectory() error {
 		}
 
 		viso.rootDir = append(viso.rootDir, dirItem)
+		if len(viso.rootDir) > pathTableItemsLimit {
+			// directory numbers in path table are 16-bit, the rest would be silently missing there
+			return fmt.Errorf("too many directories (more than %d)", pathTableItemsLimit)
+		}
+
 		return nil
 	}
 
